@@ -18,6 +18,8 @@ type segLine struct {
 		Has, Rst          [3]bool
 		Rk                [3]int
 		Inline            bool
+		Errs, Multi       bool
+		Persist           bool
 		Sco               bool
 		Scod              int
 		Norec, All, Flap  bool
@@ -25,9 +27,11 @@ type segLine struct {
 		Batch             bool
 	} `json:"setup"`
 	Pts []struct {
-		C, R [3]bool
-		T    int
+		C, R   [3]bool
+		Ce, Re [3]bool
+		T      int
 	} `json:"pts"`
+	Sub int `json:"sub"`
 	Tmax int `json:"tmax"`
 }
 
@@ -60,7 +64,7 @@ func readSegments(path string) ([]Cfg, []Seq, []int, []bool, error) {
 			}
 			c := ln.Cfg
 			cfgs = append(cfgs, Cfg{Has: c.Has, Rst: c.Rst, Sco: c.Sco, Scod: c.Scod, NoRec: c.Norec, All: c.All,
-				Flap: c.Flap, Flo: c.Flo, Fhi: c.Fhi, H: c.H, Batch: c.Batch, RK: c.Rk, Inline: c.Inline})
+				Flap: c.Flap, Flo: c.Flo, Fhi: c.Fhi, H: c.H, Batch: c.Batch, RK: c.Rk, Inline: c.Inline, Errs: c.Errs, Multi: c.Multi, Persist: c.Persist})
 			seqs = append(seqs, nil)
 			cuts = append(cuts, -1)
 			stucks = append(stucks, ln.Stuck)
@@ -77,7 +81,7 @@ func readSegments(path string) ([]Cfg, []Seq, []int, []bool, error) {
 			st := Step{}
 			t := clock
 			for _, p := range ln.Pts {
-				st.Pts = append(st.Pts, Pt{C: p.C, R: p.R, Dt: p.T - t})
+				st.Pts = append(st.Pts, Pt{C: p.C, R: p.R, CE: p.Ce, RE: p.Re, Sub: ln.Sub, Dt: p.T - t})
 				t = p.T
 			}
 			st.G = ln.Tmax - t
@@ -126,6 +130,30 @@ func Replay(r *rt.Run, path string) error {
 				emit(t, dcfg, dids[k], s, dobs[k], drep, -1, true)
 				t.Distinct("stuck#" + s.key())
 			}
+		case cfgs[i].Persist:
+			// restore from persisted event states depends on what ELSE is stored in the topic:
+			// re-run the whole chunk this ID came from (every sequence of its length over the
+			// configuration's alphabet, restarted at the same step) on a persisting executor
+			px, err := NewExecPersist()
+			if err != nil {
+				return err
+			}
+			dts := []int{1}
+			if cfgs[i].Scod > 0 {
+				dts = []int{1, 2}
+			}
+			var ss []Seq
+			enumerate(alphabet(cfgs[i], dts), len(seqs[i]), func(s Seq) { ss = append(ss, s) })
+			ids := make([]string, len(ss))
+			for k := range ids {
+				ids[k] = fmt.Sprintf("%s_%d", id, k+1)
+			}
+			obs, rep := px.Run(cfgs[i], ss, ids, runOpts{Cut: cuts[i]})
+			px.Close()
+			for k := range ss {
+				emit(t, cfgs[i], ids[k], ss[k], obs[k], rep, cuts[i], false)
+			}
+			t.Distinct(cfgs[i].String() + "#" + seqs[i].key())
 		case cfgs[i].RK != [3]int{}:
 			// a stateful reset condition: the ID runs together with three more IDs fed the
 			// same points, interleaved through the same task (IDs must not influence each other)
